@@ -291,9 +291,8 @@ func cmdReplay(args []string) int {
 		fmt.Fprintln(os.Stderr, "replay file is stale: the generator no longer produces the recorded workload from these tapes")
 		return 2
 	}
-	id := f.Class + "|" + f.Key
 	for _, v := range o.Violations {
-		if v.ID() == id {
+		if v.Class == f.Class && (v.Key == f.Key || (v.Class == "race" && raceKeyMatch(v.Key, f.Key))) {
 			if !*quiet {
 				for _, l := range o.Log {
 					fmt.Println(l)
@@ -387,7 +386,7 @@ func raceEnv(env []string, logPrefix string) []string {
 		}
 		out = append(out, e)
 	}
-	out = append(out, "GORACE=suppress_equal_stacks=0 suppress_equal_addresses=0 halt_on_error=0 exitcode=0 history_size=2 log_path="+logPrefix)
+	out = append(out, "GORACE=suppress_equal_stacks=0 suppress_equal_addresses=0 halt_on_error=0 exitcode=0 history_size=7 log_path="+logPrefix)
 	out = append(out, "VERIF_RACELOG="+logPrefix)
 	return out
 }
@@ -603,14 +602,26 @@ func cmdRun(args []string) int {
 			bin = raceBin
 			env = raceEnv(env, filepath.Join(verifDir, ".build", "racelog", "confirm"))
 		}
-		cmd := exec.Command(bin, "replay", "-quiet", "-file", f.Path)
-		cmd.Env = env
-		outb, err := cmd.CombinedOutput()
+		var outb []byte
 		code := 0
-		if ee, ok := err.(*exec.ExitError); ok {
-			code = ee.ExitCode()
-		} else if err != nil {
-			code = 2
+		attempts := 1
+		if f.Race {
+			attempts = 3 // the race runtime keeps a bounded access history; a report can be lost
+		}
+		for a := 0; a < attempts; a++ {
+			cmd := exec.Command(bin, "replay", "-quiet", "-file", f.Path)
+			cmd.Env = env
+			var err error
+			outb, err = cmd.CombinedOutput()
+			code = 0
+			if ee, ok := err.(*exec.ExitError); ok {
+				code = ee.ExitCode()
+			} else if err != nil {
+				code = 2
+			}
+			if code == 1 {
+				break
+			}
 		}
 		if code == 1 && strings.Contains(string(outb), "REPRODUCED property="+*prop) {
 			violations++
@@ -695,6 +706,17 @@ func cmdRun(args []string) int {
 	}
 	fmt.Printf("OK property=%s held on everything explored\n", *prop)
 	return 0
+}
+
+// raceKeyMatch compares two "a <-> b" race keys; a frame the race runtime could not
+// restore ("?") matches anything.
+func raceKeyMatch(a, b string) bool {
+	pa, pb := strings.Split(a, " <-> "), strings.Split(b, " <-> ")
+	if len(pa) != 2 || len(pb) != 2 {
+		return a == b
+	}
+	eq := func(x, y string) bool { return x == y || x == "?" || y == "?" }
+	return (eq(pa[0], pb[0]) && eq(pa[1], pb[1])) || (eq(pa[0], pb[1]) && eq(pa[1], pb[0]))
 }
 
 func tail(s string, n int) string {
